@@ -122,6 +122,11 @@ func runSelfTest(repo, id string) (fired, total int, notes []string, bad []strin
 				notes = append(notes, m.Name+": not applicable ("+strings.TrimSpace(string(out))+")")
 				return
 			}
+			if ee, ok := err.(*exec.ExitError); ok && ee.ExitCode() == 4 {
+				notes = append(notes, m.Name+": MUTANT DOES NOT COMPILE ("+strings.TrimSpace(string(out))+")")
+				bad = append(bad, "mutant:"+m.Name)
+				return
+			}
 			hit := false
 			for _, line := range strings.Split(string(out), "\n") {
 				if strings.HasPrefix(line, "MUTANT-FINDING rule="+m.ExpectRule+" ") && strings.Contains(line, m.ExpectConstruct) {
